@@ -19,6 +19,8 @@ func c15(p *core.Program, r *core.Report) {
 	r.Rule("R2", "a per-shard result stays in its shard: Shift is the only operator that moves bits, so the shift path (executeShiftShard, Row.Shift, rowSegment.Shift) must compute with the shard boundary somewhere -- drop or carry the bit that leaves the shard and take in the one that enters; a shift path that never mentions ShardWidth or shard arithmetic cannot be right at shard boundaries")
 	r.Rule("R3", "Not is taken relative to the existence field: executeNotShard fails when the index has no existence field and otherwise subtracts from row 0 of the existence field's standard view in the same shard")
 	r.Rule("R4", "reduce: per-shard rows are combined with Row.Merge, per-shard counts are added")
+	r.Rule("R5", "the segment iterator keeps the sides apart: every return of mergeSegmentIterator.next puts into its first result only nil or a pointer into the receiver's first segment list, and into the second only nil or a pointer into the second list")
+	c15IteratorSides(p, r)
 	r.NotDecided = "equality of query answers with the set-algebra model for generated data (value level); the roaring kernels (C01); Row.Merge/Union/... themselves (C03 decides isolation only)"
 	pk := p.Pkg("")
 	if pk == nil {
